@@ -34,7 +34,7 @@ theorem mem_map_eq {α β : Type} {f : α → β} {l : List α} {m : List β} (h
     integer bases, is inside the builtin's own range (the two exclusions are the two findings; see the witnesses). -/
 theorem validator_sound (E : Engine) (hE : EngineSpec E) (pc : PatCheck) (hpc : pc.test = .fullLen)
     (py : PyType) (x : XsdType) (hA : typeAgrees py x = true) (v : PyVal)
-    (hplain : ∀ s, v = .str s → plainSpaces s = true) (hrange : x.base.rangeOK v = true)
+    (hplain : ∀ s, v = .str s → plainFor pc.ascii s = true) (hrange : x.base.rangeOK v = true)
     (hrun : runValidator E pc py v = true) : xsdValid x v = true := by
   simp only [typeAgrees, Bool.and_eq_true, decide_eq_true_eq] at hA
   obtain ⟨⟨⟨⟨_, hbase⟩, hP⟩, hEn⟩, hB⟩ := hA
@@ -57,7 +57,7 @@ theorem validator_sound (E : Engine) (hE : EngineSpec E) (pc : PatCheck) (hpc : 
         have hok := steps_patterns hsteps [g] hmem
         simp only [stepOK] at hok
         obtain ⟨p, hp, hm⟩ := patAccept_sound hE hpc hok g (by simp)
-        have hx : Matches (xsdOf p.body) s := xsdOf_of_plain hm (hplain s rfl)
+        have hx : Matches (xsdOf p.body) s := pyBody_to_xsd pc.ascii hm (hplain s rfl)
         have hin : xsdOf p.body ∈ x.patterns := by
           have := hP.1.2
           simp only [beq_iff_eq] at this
@@ -140,7 +140,7 @@ theorem validator_complete (E : Engine) (hE : EngineSpec E) (pc : PatCheck)
         obtain ⟨r, hr, hacc⟩ := List.any_eq_true.mp hany
         obtain ⟨p, hp, hpr⟩ := mem_map_eq hP.1.2 hr
         have hmr : Matches r s := (accepts_iff _ _).mp hacc
-        refine ⟨p, hp, xsdOf_sub (hpr ▸ hmr), ?_⟩
+        refine ⟨p, hp, xsd_to_pyBody pc.ascii (hpr ▸ hmr), ?_⟩
         intro t hs hmt
         rcases hnl s rfl with h | h
         · exact h t hs
@@ -179,15 +179,15 @@ theorem validator_complete (E : Engine) (hE : EngineSpec E) (pc : PatCheck)
       simp only [holds_cmpOf, Bool.not_not]
       exact hxb b' hb'
 
-/-- the full-length test of `gds_validate_simple_patterns` is load-bearing: drop it and, whatever the engine, a
-    matching value followed by ONE line feed is accepted although it is outside the pattern's language whenever the
-    pattern admits no trailing line feed (Python's `$`) -/
-theorem length_test_needed (E : Engine) (hE : EngineSpec E) (fn : ReFn) (hfn : fn ≠ .fullmatch) (p : PyPat)
-    (hl : lastCan '\n' p.body = false) (t : List Char) (hm : Matches p.body t) :
-    patAccept E ⟨fn, true, .noTest⟩ [[p]] (t ++ ['\n']) = true ∧ ¬ Matches p.body (t ++ ['\n']) := by
+/-- the full-length test of `gds_validate_simple_patterns` is load-bearing: drop it and, whatever the engine and with
+    or without `re.ASCII`, a matching value followed by ONE line feed is accepted although it is outside the pattern's
+    language whenever the pattern admits no trailing line feed (Python's `$`) -/
+theorem length_test_needed (E : Engine) (hE : EngineSpec E) (fn : ReFn) (hfn : fn ≠ .fullmatch) (a : Bool) (p : PyPat)
+    (hl : lastCan '\n' (pyBody a p.body) = false) (t : List Char) (hm : Matches (pyBody a p.body) t) :
+    patAccept E ⟨fn, true, .noTest, a⟩ [[p]] (t ++ ['\n']) = true ∧ ¬ Matches (pyBody a p.body) (t ++ ['\n']) := by
   constructor
   · simp only [patAccept, List.all_cons, List.any_cons, List.all_nil, List.any_nil, Bool.or_false, Bool.and_true]
-    exact patOK_noTest_trailing_nl hE fn hfn p t hm
+    exact patOK_noTest_trailing_nl hE fn hfn a p t hm
   · intro h
     have := lastCan_sound h t '\n' rfl
     rw [hl] at this; cases this
@@ -209,9 +209,17 @@ theorem validators_agree : allAgree pyTypes xsdTypes = true := by decide +kernel
 /-- the copies of one validator (one per class that uses the type) are all identical -/
 theorem py_types_functional : NmlVerif.Binding.nodupNat (pyTypes.map (·.name)) = true := by decide +kernel
 
+/-- the call shape before the repair of `C03:pattern-unicode-space` … -/
+def oldShape : PatCheck := ⟨.search, true, .fullLen, false⟩
+/-- … and after it: `re_.search(p, target, re_.ASCII)` -/
+def fixedShape : PatCheck := ⟨.search, true, .fullLen, true⟩
+
 /-- `gds_validate_simple_patterns` still is `all(any(m is not None and len(m.group(0)) == len(target)))` over
-    `re.search(p, str(target))` -/
-theorem pattern_check_shape : patCheck = ⟨.search, true, .fullLen⟩ := by decide
+    `re.search(p, str(target))`, with or without `re.ASCII` (the translator reports which; the theorems below are about
+    the extracted one) -/
+theorem pattern_check_shape : patCheck = oldShape ∨ patCheck = fixedShape := by decide
+
+theorem patCheck_fullLen : patCheck.test = .fullLen := by decide
 
 /-- the schema types one of whose patterns admits a value ending in a line feed: only the unit-less `Nml2Quantity` -/
 theorem nl_free_types : (xsdTypes.filter (fun x => !(nlFree x))).map (·.name) = [nm_Nml2Quantity] := by decide +kernel
@@ -231,15 +239,16 @@ theorem today_agree (n : Nat) (py : PyType) (x : XsdType) (hp : findPy pyTypes n
 
 /-- **C03, today's tables.**  A value handed to today's `validate_<T>` that is outside the XSD value space of `T`
     is rejected — for every simple type of the schema, for every engine meeting the specification — unless it holds
-    a Python-only space character or lies outside a builtin integer range. -/
+    a space character of Python's reading (for the extracted call shape: `plainFor patCheck.ascii`) that is not an
+    XSD space, or lies outside a builtin integer range. -/
 theorem c03_facet_today (E : Engine) (hE : EngineSpec E) (n : Nat) (py : PyType) (x : XsdType)
     (hp : findPy pyTypes n = some py) (hx : findXsdT xsdTypes n = some x) (v : PyVal)
-    (hplain : ∀ s, v = .str s → plainSpaces s = true) (hrange : x.base.rangeOK v = true)
+    (hplain : ∀ s, v = .str s → plainFor patCheck.ascii s = true) (hrange : x.base.rangeOK v = true)
     (hbad : xsdValid x v = false) : runValidator E patCheck py v = false := by
   cases hr : runValidator E patCheck py v with
   | false => rfl
   | true =>
-    have := validator_sound E hE patCheck (by rw [pattern_check_shape]) py x (today_agree n py x hp hx) v hplain hrange hr
+    have := validator_sound E hE patCheck patCheck_fullLen py x (today_agree n py x hp hx) v hplain hrange hr
     rw [hbad] at this; cases this
 
 /-- **C02, today's tables.**  A value of the XSD value space of `T` is accepted by today's `validate_<T>` — for every
@@ -269,22 +278,25 @@ theorem c02_facet_today (E : Engine) (hE : EngineSpec E) (n : Nat) (py : PyType)
 
 /-! ### findings -/
 
-/-- `"1 mV"`: a no-break space between number and unit -/
+/-- `"1 mV"`: a no-break space between number and unit -/
 def wNbsp : List Char := ['1', Char.ofNat 160, 'm', 'V']
+/-- `"1\x0bmV"`: a vertical tab between number and unit (not an XML character) -/
+def wVtab : List Char := ['1', Char.ofNat 11, 'm', 'V']
 
-/-- the statement without the exclusion of Python-only spaces -/
-def C03_pattern_full : Prop :=
+/-- the statement without the exclusion of Python-only spaces, for a given call shape -/
+def C03_pattern_full (pc : PatCheck) : Prop :=
   ∀ (n : Nat) (py : PyType) (x : XsdType), findPy pyTypes n = some py → findXsdT xsdTypes n = some x →
-    ∀ s : List Char, xsdValid x (.str s) = false → runValidator refEngine patCheck py (.str s) = false
+    ∀ s : List Char, xsdValid x (.str s) = false → runValidator refEngine pc py (.str s) = false
 
-/-- KNOWN FINDING `C03:pattern-unicode-space`: Python's `\s` (on `str`, no `re.ASCII`) matches U+00A0, U+0085,
-    U+2003 …, the schema's `\s` only space, tab, line feed, carriage return: `1 mV` is accepted by
-    `validate_Nml2Quantity_voltage` and is outside the schema's pattern. -/
-theorem c03_unicode_space_witness : ¬ C03_pattern_full := by
+/-- one value against `Nml2Quantity_voltage`: accepted by the validator under shape `pc`, outside the schema's type -/
+def voltageGap (pc : PatCheck) (w : List Char) : Bool :=
+  match findPy pyTypes nm_Nml2Quantity_voltage, findXsdT xsdTypes nm_Nml2Quantity_voltage with
+  | some py, some x => runValidator refEngine pc py (.str w) && !(xsdValid x (.str w))
+  | _, _ => false
+
+theorem not_full_of_gap (pc : PatCheck) (w : List Char) (hb : voltageGap pc w = true) : ¬ C03_pattern_full pc := by
   intro h
-  have hb : (match findPy pyTypes nm_Nml2Quantity_voltage, findXsdT xsdTypes nm_Nml2Quantity_voltage with
-      | some py, some x => runValidator refEngine patCheck py (.str wNbsp) && !(xsdValid x (.str wNbsp))
-      | _, _ => false) = true := by decide +kernel
+  unfold voltageGap at hb
   cases hpy : findPy pyTypes nm_Nml2Quantity_voltage with
   | none => simp [hpy] at hb
   | some py =>
@@ -292,20 +304,52 @@ theorem c03_unicode_space_witness : ¬ C03_pattern_full := by
     | none => simp [hpy, hxx] at hb
     | some x =>
       simp only [hpy, hxx, Bool.and_eq_true, Bool.not_eq_true'] at hb
-      have := h _ py x hpy hxx wNbsp hb.2
+      have := h _ py x hpy hxx w hb.2
       rw [hb.1] at this; cases this
 
-/-- the part that holds (`c03_facet_today` restricted to strings) -/
+/-- FIXED FINDING `C03:pattern-unicode-space` (the call shape BEFORE the repair): Python's `\s` (on `str`, no
+    `re.ASCII`) matches U+00A0, U+0085, U+2003 …, the schema's `\s` only space, tab, line feed, carriage return: `1 mV`
+    was accepted by `validate_Nml2Quantity_voltage` and is outside the schema's pattern. -/
+theorem c03_unicode_space_witness : ¬ C03_pattern_full oldShape :=
+  not_full_of_gap oldShape wNbsp (by decide +kernel)
+
+/-- with `re.ASCII` the same value is rejected (the regression case of the repair) -/
+theorem c03_ascii_rejects_nbsp : voltageGap fixedShape wNbsp = false := by decide +kernel
+
+/-- KNOWN FINDING `C03:pattern-ascii-vt-ff` (what remains after the repair, and was part of the old finding): under
+    `re.ASCII` `\s` is `[ \t\n\r\f\v]`; `\v` and `\f` are not XSD spaces.  They are not XML characters either, so no
+    document can carry them; an in-memory tree can: `1\x0bmV` passes the validator. -/
+theorem c03_ascii_residual_witness : ¬ C03_pattern_full fixedShape :=
+  not_full_of_gap fixedShape wVtab (by decide +kernel)
+
+/-- the part that holds, for the extracted shape (`c03_facet_today` restricted to strings) -/
 theorem c03_pattern_partial (E : Engine) (hE : EngineSpec E) (n : Nat) (py : PyType) (x : XsdType)
     (hp : findPy pyTypes n = some py) (hx : findXsdT xsdTypes n = some x) (s : List Char)
-    (hplain : plainSpaces s = true) (hbad : xsdValid x (.str s) = false) :
+    (hplain : plainFor patCheck.ascii s = true) (hbad : xsdValid x (.str s) = false) :
     runValidator E patCheck py (.str s) = false :=
   c03_facet_today E hE n py x hp hx (.str s) (fun s' h => by cases h; exact hplain)
     (by cases x.base <;> rfl) hbad
 
-/-- the hypotheses of `c03_pattern_partial` are satisfiable: `"1mV\n"` against `Nml2Quantity_voltage` -/
+/-- what `plainFor true` excludes is exactly `\v` and `\f` -/
+theorem plainFor_ascii_iff (s : List Char) :
+    plainFor true s = true ↔ ∀ c ∈ s, c.toNat ≠ 11 ∧ c.toNat ≠ 12 := by
+  simp only [plainFor, pySpace, if_true, List.all_eq_true]
+  constructor
+  · intro h c hc
+    have := h c hc
+    simp only [asciiSpace, xsdSpace, Bool.or_eq_true, Bool.not_eq_true', Bool.and_eq_true, decide_eq_true_eq,
+      beq_iff_eq, Bool.or_eq_false_iff, Bool.and_eq_false_iff, decide_eq_false_iff_not, beq_eq_false_iff_ne] at this
+    omega
+  · intro h c hc
+    have := h c hc
+    simp only [asciiSpace, xsdSpace, Bool.or_eq_true, Bool.not_eq_true', Bool.and_eq_true, decide_eq_true_eq,
+      beq_iff_eq, Bool.or_eq_false_iff, Bool.and_eq_false_iff, decide_eq_false_iff_not, beq_eq_false_iff_ne]
+    omega
+
+/-- the hypotheses of `c03_pattern_partial` are satisfiable under either shape: `"1mV\n"` against `Nml2Quantity_voltage` -/
 example : (match findPy pyTypes nm_Nml2Quantity_voltage, findXsdT xsdTypes nm_Nml2Quantity_voltage with
-    | some _, some x => plainSpaces ['1', 'm', 'V', '\n'] && !(xsdValid x (.str ['1', 'm', 'V', '\n']))
+    | some _, some x => plainFor true ['1', 'm', 'V', '\n'] && plainFor false ['1', 'm', 'V', '\n']
+        && !(xsdValid x (.str ['1', 'm', 'V', '\n']))
     | _, _ => false) = true := by decide +kernel
 
 /-- the statement without the exclusion of the builtin integer ranges -/
@@ -348,16 +392,17 @@ def firstPat (py : PyType) : Option PyPat :=
     it is outside the pattern's language -/
 theorem c03_length_test_needed_today (E : Engine) (hE : EngineSpec E) :
     ∃ p : PyPat, (findPy pyTypes nm_NmlId).bind firstPat = some p
-      ∧ patAccept E ⟨.search, true, .noTest⟩ [[p]] ['a', '\n'] = true ∧ ¬ Matches p.body ['a', '\n'] := by
+      ∧ patAccept E ⟨.search, true, .noTest, patCheck.ascii⟩ [[p]] ['a', '\n'] = true
+      ∧ ¬ Matches (pyBody patCheck.ascii p.body) ['a', '\n'] := by
   have hp : (match (findPy pyTypes nm_NmlId).bind firstPat with
-      | some p => !(lastCan '\n' p.body) && accepts p.body ['a']
+      | some p => !(lastCan '\n' (pyBody patCheck.ascii p.body)) && accepts (pyBody patCheck.ascii p.body) ['a']
       | none => false) = true := by decide +kernel
   cases hq : (findPy pyTypes nm_NmlId).bind firstPat with
   | none => rw [hq] at hp; cases hp
   | some p =>
     rw [hq] at hp
     simp only [Bool.and_eq_true, Bool.not_eq_true'] at hp
-    have := length_test_needed E hE .search (by decide) p hp.1 ['a'] ((accepts_iff _ _).mp hp.2)
+    have := length_test_needed E hE .search (by decide) patCheck.ascii p hp.1 ['a'] ((accepts_iff _ _).mp hp.2)
     exact ⟨p, rfl, this.1, this.2⟩
 
 end NmlVerif.Facets
